@@ -359,6 +359,14 @@ func registerIntrinsics(e *Engine) {
 	reg("vMapOrderSite", func(x *Exec, a []Value) Value {
 		x.mapSite = cint(x, a[0])
 		x.mapSites = 0 // sites are counted from here
+		x.mapPkg = ""
+		return nil
+	})
+	// vMapOrderSiteIn(k, pkgPrefix): as vMapOrderSite, numbering only the range statements executed by functions of that package
+	reg("vMapOrderSiteIn", func(x *Exec, a []Value) Value {
+		x.mapSite = cint(x, a[0])
+		x.mapSites = 0
+		x.mapPkg = cstr(x, a[1])
 		return nil
 	})
 	reg("vParam", func(x *Exec, a []Value) Value {
